@@ -101,6 +101,10 @@ def run_case(case):
         else:
             fwd = DWTForward(J=J, wave=dec, mode=msp)
             inv = DWTInverse(wave=rec, mode=msp)
+            for arrs in (dec, rec):
+                if isinstance(arrs, tuple):
+                    for a in arrs:
+                        a[...] = 7.0            # the caller reuses its arrays: the modules must own copies
         sib = dwtu.sibling(w) if (case.get('reused') and not w2) else None
         if sib is not None:
             # previous life with a sibling wavelet of the same length, then load_state_dict
